@@ -972,6 +972,28 @@ def sweep_configs(tier):
                         ops.append({"op": "call", "k": "k1", "model": model, "fn": fn, "pars": key,
                                     "cutoff": 0.0, "mono": False})
             out.append({"kind": "history", "ops": ops, "recheck_seed": 1, "family": "ordered_pairs"})
+    # sibling instances: clone, change one of the two, evaluate the other (every
+    # configuration operation of the pool, both directions)
+    for model in ("sphere", "cylinder", "pyplug", "allpd", "sphere@hayter_msa", "core_multi_shell"):
+        cfgops = [{"op": "sv_set", "name": nm, "value": val} for nm, val in SV_SET.get(model, [])]
+        cfgops += [{"op": "sv_disp", "par": p_, "type": t_, "npts": min(n_, 9), "width": w_}
+                   for p_, t_, n_, w_ in SV_DISP.get(model, [])]
+        cfgops += [{"op": "sv_array", "par": p_, "values": v_, "weights": w_} for p_, v_, w_ in SV_ARRAY.get(model, [])]
+        ev = {"op": "sv_eval", "q": "q3", "fn": "evalDistribution"}
+        ops = [{"op": "sv_new", "id": "s1", "model": model}]
+        first_disp = next((c for c in cfgops if c["op"] == "sv_disp"), None)
+        if first_disp:
+            ops.append(dict(first_disp, s="s1"))
+        ops.append(dict(ev, s="s1"))
+        k = 1
+        for c in cfgops:
+            k += 1
+            clone = "s%d" % k
+            ops += [{"op": "sv_clone", "id": clone, "s": "s1", "model": model},
+                    dict(c, s=clone), dict(ev, s="s1"), dict(ev, s=clone)]
+        for c in cfgops[:3]:
+            ops += [dict(c, s="s1"), dict(ev, s="s2"), dict(ev, s="s1")]
+        out.append({"kind": "history", "ops": ops, "recheck_seed": 2, "family": "sibling_instances"})
     from checks import c11_threads
     out.extend(c11_threads.sweep_configs(tier))
     return out
